@@ -325,7 +325,10 @@ func (h *FBDNSDB) watchControlDirAndReload(watcher *fsnotify.Watcher) (err error
 				glog.Infof("Found full reload trigger file")
 				newPath, err := getNewDBPath(cp)
 				if err != nil {
-					return fmt.Errorf("getting new DB path: %w", err)
+					// a reload request that cannot be honoured is not a failure of the
+					// watcher: keep serving the current DB and keep watching
+					glog.Errorf("Ignoring full reload request: getting new DB path: %v", err)
+					continue
 				}
 				if !h.signalReload(*NewFullReloadSignal(newPath)) {
 					return nil
